@@ -372,7 +372,7 @@ def run(prop, tier, seed, replay=None):
         fine_out.append(('unpruned', r))
         # ... and the fault class: a Flush between its state check and queue.put, overtaken by Close + teardown
         r = tlc.run('Lifecycle', 'mc.cfg', timeout=400, workers=2,
-                    extra_files={'mc.cfg': cfg_text(C([1], [], ['c1'], F, 0, 0, F, F, 1), False, 'NoFault')})
+                    extra_files={'mc.cfg': cfg_text(C([1], [], ['c1'], F, 0, 0, F, F, 1), False, 'NoRace')})
         fine_out.append(('unpruned-fault', r))
 
     def gate_thread():
